@@ -38,6 +38,11 @@ func concCase(c *harness.Case, forProp string) concCfg {
 		cfg.faultPct = 8
 		cfg.futurePct = 4
 		cfg.maxDelayUs = []int{50, 200, 500}[r.Intn(3)]
+		if c.Index%4 == 1 {
+			// a compaction loop close behind the read revision: concurrent lists must still be exact snapshots (or be refused)
+			cfg.compactor = true
+			cfg.readers = 3
+		}
 		if c.Index%4 == 2 {
 			// unknown outcomes (and, by chance, faults on the repair writes of the retry loop) in the mix
 			cfg.uncertainPct = 8
@@ -137,7 +142,7 @@ func init() {
 	Registry["C04"] = &Prop{
 		Plan: func(tier string) Plan {
 			return Plan{Level: "exploration", NCases: pick(tier, 480, 60000), Batch: 8, CaseTimeout: 90,
-				Rule: "concurrent workload with delayed commits (0-5 ms, so later allocations finish first), 8% definite storage errors injected at the engine boundary (every 4th case also 4% unknown outcomes, which makes the async retry loop and faults on its repair writes part of the schedule), 4% far-future expected revisions, 2 concurrent List readers; every 8th case drives the same through etcd Txn with negative mod revisions. " +
+				Rule: "concurrent workload with delayed commits (0-5 ms, so later allocations finish first), 8% definite storage errors injected at the engine boundary (every 4th case with a compaction loop close behind the read revision; every 4th case also unknown outcomes, which makes the async retry loop and faults on its repair writes part of the schedule), 4% far-future expected revisions, 2 concurrent List readers; every 8th case drives the same through etcd Txn with negative mod revisions. " +
 					"monitors: (1) read revision < r at the instant the engine answered r's batch, (2) every dealt revision deposited exactly once at quiescence (notify hook), (3) every concurrent List equals the reference snapshot at its header revision, (4) a final probe write becomes listable. " +
 					"non-trivial = >=1 commit finished out of allocation order AND >=1 failed condition AND (>=1 injected storage error OR >=1 rejected future/negative expectation); distinct by outcome vector",
 				Assumptions: []string{"storage errors are injected by a wrapper at the storage.KvStorage boundary; real TiKV network faults are not reachable",
